@@ -156,6 +156,9 @@ func (e *Engine) zero(t types.Type) value {
 		if t.Kind() == types.UntypedNil {
 			panic("untyped nil has no zero value")
 		}
+		if t.Kind() == types.Invalid {
+			return nil // unused component of a range tuple
+		}
 		if t.Info()&types.IsString != 0 {
 			return str{}
 		}
